@@ -390,6 +390,15 @@ func c08RunAll(n int, seed uint64, self func(i int) peer.ID, mk func(i int, c *c
 	return ""
 }
 
+func c08HasParty(ps []peer.ID, id string) bool {
+	for _, p := range ps {
+		if p.String() == id {
+			return true
+		}
+	}
+	return false
+}
+
 func c08Others(peers []peer.ID, i int) peer.IDSlice { // a host's peer store as the FROST processes expect it: everyone else
 	o := peer.IDSlice{}
 	for j, p := range peers {
@@ -416,6 +425,14 @@ func c08SharesOfOneKey(ks []keyshare.FrostKeyshare, pk []byte, thr int) string {
 		}
 		if k.Key.Threshold != thr || k.Threshold != thr {
 			return "threshold"
+		}
+		if len(k.Peers) != len(ks)-1 && len(k.Peers) != len(ks) { // the stored committee: the members (FROST hosts list the others)
+			return "stored-committee"
+		}
+		for _, o := range ks {
+			if o.Key.ID != k.Key.ID && !c08HasParty(k.Peers, string(o.Key.ID)) {
+				return "stored-committee"
+			}
 		}
 		v, ok := k.Key.VerificationShares[k.Key.ID]
 		if !ok || !k.Key.PrivateShare.ActOnBase().Equal(v) {
@@ -677,6 +694,7 @@ func genC08Runs(g *G) {
 	g.Emit("signrun", "frost", subsets[g.Intn(6)], digest(), hex.EncodeToString(tw), itoa(1+g.Intn(1000)))
 	// real ECDSA refreshes that RAISE and then LOWER the threshold, then threshold+1 holders sign with the refreshed shares
 	g.Emit("resharerun", "ecdsa", "2,1", itoa(1+g.Intn(1000)))
+	g.Emit("resharerun", "ecdsa", "1", itoa(1+g.Intn(1000)), []string{"0,1", "1,2", "2,0"}[g.Intn(3)]) // one holder leaves
 	if !g.Thorough() {
 		return
 	}
